@@ -225,6 +225,7 @@ class C11(Check):
             calls = [i for i, s in enumerate(hist) if "pdu" in s]
             plan["crash"] = {"kind": rng.choice(["exception", "sigint"]), "at": rng.choice(calls), "delay": rng.choice([0.0, 0.0005, 0.002, 0.01, 0.05, 0.2])}
         plan["artifacts"] = rng.random() < 0.3
+        plan["log_off_at_start"] = rng.random() < 0.15  # like SASeedsDumper: implicit_logging = False in the constructor
         # separate configuration: transient "database is locked" errors on row inserts (another process reads the database);
         # row ORDER is not judged there (the handler re-queues the row), completeness after close still is
         plan["db_locked"] = sorted(rng.sample(range(0, 60), rng.choice([1, 2, 4]))) if rng.random() < 0.2 else []
@@ -313,6 +314,9 @@ class C11(Check):
                             timeout=0.3, max_retries=0, **kw)
         cmd = HistoryScanner(cfg)
         cmd.plan, cmd.world, cmd.calls = plan, world, []
+        if plan.get("log_off_at_start"):
+            cmd.implicit_logging = False
+            rec.events.append([len(rec.events), 0.0, "main", "toggle", {"on": False}])
         orig_finish = cmd._db_finish_run_meta
 
         async def finish() -> None:
